@@ -976,7 +976,7 @@ class Process:
         ret = []
         if not recursive:
             for pid, ppid in ppid_map.items():
-                if ppid == self.pid:
+                if ppid == self.pid and pid != self.pid:
                     try:
                         child = Process(pid)
                         # if child happens to be older than its parent
@@ -1003,6 +1003,9 @@ class Process:
                     continue
                 seen.add(pid)
                 for child_pid in reverse_ppid_map[pid]:
+                    if child_pid == self.pid:
+                        # a ppid cycle (or self-loop) leads back to us
+                        continue
                     try:
                         child = Process(child_pid)
                         # if child happens to be older than its parent
